@@ -34,6 +34,7 @@ func debugCase(line string) {
 			if f != in.Fmt {
 				continue
 			}
+			curFmt = in.Fmt
 			text = corrupt(coqfmt.NewRng(in.Mut), text)
 		}
 		v, err, p := decodeWith(in.Wrap, f, text, PT)
